@@ -319,3 +319,7 @@ func zzvWaitPubChecked(r *zzvRec, rp *Republisher, tm zzvTiming) {
 	}
 	r.mu.Unlock()
 }
+
+// HarnessC21SeqArm: the sequential script with the "hand-in overlapping a publish" operation (thorough tier; in the
+// quick tier HarnessC21Seq itself runs with that operation).
+func HarnessC21SeqArm() { HarnessC21Seq() }
